@@ -6,6 +6,7 @@ import (
 	"context"
 	"errors"
 	"fmt"
+	"github.com/hashicorp/consul/acl"
 	"math/rand/v2"
 	"sort"
 	"strings"
@@ -54,15 +55,33 @@ func (C11) Generate(rng *rand.Rand, tier string, runIdx uint64) simkit.Plan {
 		case 0:
 			s := g.Next()
 			if s.Op == "txn" {
-				continue
+				// one log entry that registers two services: one event batch with two events on the list topic
+				a, b := g.pick(u.Services), g.pick(u.Services)
+				node := g.pick(u.Nodes)
+				s = Step{Op: "txn", Ops: []Step{
+					{Op: "service.set", Node: node, Svc: a, Port: 8000 + g.R.IntN(3)},
+					{Op: "service.set", Node: node, Svc: b, SvcID: b + "2", Port: 8000 + g.R.IntN(3)}}}
+				p.Steps = append(p.Steps, Step{Op: "register", Node: node, Addr: "10.0.0.9"})
 			}
 			p.Steps = append(p.Steps, s)
 		case 1:
+			if simkit.Chance(rng, 12) {
+				// a service-level check that moves between two instances of one service on one node
+				node, svc := g.pick(u.Nodes), g.pick(u.Services)
+				inst := svc + simkit.Pick(rng, []string{"1", "2"})
+				p.Steps = append(p.Steps,
+					Step{Op: "register", Node: node, Addr: "10.0.0.8", Svc: svc, SvcID: inst, Port: 8000},
+					Step{Op: "register", Node: node, Addr: "10.0.0.8", SkipNode: true, Checks: []Check{{ID: "cmove", Status: g.status(), SvcID: inst}}})
+				continue
+			}
 			p.Steps = append(p.Steps, Step{Op: "drain", N: int64(1 + rng.IntN(2))})
 		case 2:
 			s := Step{Op: "sub", N: sub, Name: simkit.Pick(rng, c11Topics), Svc: g.pick(u.Services), Idx: simkit.Pick(rng, []string{"zero", "zero", "last", "last", "stale"})}
 			if simkit.Chance(rng, 25) {
 				s.ID = SecretUUID(1 + rng.IntN(2)) // subscribe with an ACL token
+			}
+			if simkit.Chance(rng, 25) && (s.Name == "list" || s.Name == "health") {
+				s.Flag2 = true // a token that may read nodes and the service "web" only
 			}
 			p.Steps = append(p.Steps, s)
 		case 3:
@@ -121,6 +140,9 @@ type subscriber struct {
 	closedErr          error
 	subscribedAtCommit int
 	aclTouchedSince    bool
+	// authz: what the subscribe service resolved for the subscriber's token (nil = may read everything);
+	// events are filtered with it exactly as the service does before they are sent
+	authz acl.Authorizer
 }
 
 type nextResult struct {
@@ -357,6 +379,11 @@ func (C11) execute(p *Plan, r *simkit.Run) *simkit.Violation {
 				}
 				ev := res.ev
 				r.Hit("probe.event-delivered")
+				if s.authz != nil && !ev.Payload.HasReadPermission(s.authz) {
+					// subscribe.go: events the token may not read are not sent
+					r.Hit("probe.event-filtered-by-acl")
+					continue
+				}
 				switch {
 				case ev.IsNewSnapshotToFollow():
 					s.view = map[string]string{}
@@ -410,6 +437,9 @@ func (C11) execute(p *Plan, r *simkit.Run) *simkit.Violation {
 				s = &subscriber{id: st.N, topic: st.Name, svc: st.Svc, view: map[string]string{}}
 				if st.Name == "list" || st.Name == "resolver*" {
 					s.svc = ""
+				}
+				if st.Flag2 && (st.Name == "list" || st.Name == "health") {
+					s.authz = c11Restricted
 				}
 				w.subs[st.N] = s
 			}
@@ -562,6 +592,7 @@ func (C11) execute(p *Plan, r *simkit.Run) *simkit.Violation {
 			continue
 		}
 		want, _ := w.truthAt(s.key(), last)
+		want = s.asSeenBy(want)
 		if got := s.viewString(); got != want {
 			return mk("catchup-liveness", "caught-up-view-equals-current-state", fmt.Sprintf("subscriber %d (%s), everything published and consumed, view differs from the direct query:\n%s", s.id, s.key(), simkit.FirstDiff(got, want)))
 		}
@@ -573,6 +604,7 @@ func (C11) execute(p *Plan, r *simkit.Run) *simkit.Violation {
 
 func (w *c11World) checkView(s *subscriber, idx uint64, what string, mk func(string, string, string) *simkit.Violation, viol **simkit.Violation) {
 	want, _ := w.truthAt(s.key(), idx)
+	want = s.asSeenBy(want)
 	got := s.viewString()
 	s.anyIndex = append(s.anyIndex, idx)
 	w.r.Hit("probe.view-checked")
@@ -603,4 +635,37 @@ func errName(err error) string {
 		return "cancelled"
 	}
 	return "other"
+}
+
+// c11Restricted: node:read everywhere, service:read on "web" only.
+var c11Restricted = func() acl.Authorizer {
+	pol, err := acl.NewPolicyFromSource(`node_prefix "" { policy = "read" } service "web" { policy = "read" }`, nil, nil)
+	if err != nil {
+		panic(err)
+	}
+	a, err := acl.NewPolicyAuthorizerWithDefaults(acl.DenyAll(), []*acl.Policy{pol}, nil)
+	if err != nil {
+		panic(err)
+	}
+	return a
+}()
+
+// asSeenBy: the direct query result as the subscriber's token may read it.
+func (s *subscriber) asSeenBy(want string) string {
+	if s.authz == nil {
+		return want
+	}
+	switch {
+	case s.topic == "list":
+		var keep []string
+		for _, name := range strings.Split(want, "\n") {
+			if name == "web" {
+				keep = append(keep, name)
+			}
+		}
+		return strings.Join(keep, "\n")
+	case s.svc != "web":
+		return ""
+	}
+	return want
 }
